@@ -430,19 +430,46 @@ func init() {
 		reg(pkg+".Sign", edSign)
 		reg(pkg+".Verify", edVerify)
 	}
-	reg("strings.TrimRight", func(in *Interp, fn *ssa.Function, args []value) (value, bool) {
-		s := args[0].(*Str)
-		cut := args[1].(*Str).MustConcrete("cutset")
-		if c, ok := s.Concrete(); ok {
-			_ = c
-			return nil, false
+}
+
+func init() {
+	// btcec.ParsePubKey: serialized secp256k1 public keys. Uncompressed form only (0x04 || X || Y, 65 bytes): the
+	// point must be on the curve (same uninterpreted predicate as IsOnCurve). Compressed and hybrid forms need a
+	// square root in the field and end the path as outside the encoding.
+	parse := func(in *Interp, fn *ssa.Function, args []value) (value, bool) {
+		buf := args[0].(*Slice)
+		if buf.Ghost != nil {
+			panic(engineErr("btcec.ParsePubKey of opaque bytes"))
 		}
-		if s.Kind == sGhost && (s.G.Ctor == "b64" || s.G.Ctor == "b64x") && cut == "=" {
-			return s, true
+		resT := fn.Signature.Results().At(0).Type()
+		fail := func(msg string) (value, bool) {
+			return Tuple{zero(resT), in.mkErrorf("%s", msg)}, true
 		}
-		if s.Kind == sAtom {
-			return s, true
+		n := len(buf.Data)
+		if n == 0 {
+			return fail("malformed public key: invalid length: 0")
 		}
-		return nil, false
-	})
+		if n != 65 {
+			if n == 33 {
+				panic(pathKilled{"outside the encoding: compressed secp256k1 public key"})
+			}
+			return fail("malformed public key: invalid length")
+		}
+		bs := make([]*Term, n)
+		for i, b := range buf.Data {
+			bs[i] = b.(*Term)
+		}
+		if !in.branch(Eq(bs[0], BVu(8, 4))) {
+			panic(pathKilled{"outside the encoding: hybrid or unknown secp256k1 public key format"})
+		}
+		x, y := bytesToBig(bs[1:33]), bytesToBig(bs[33:65])
+		if !in.branch(in.onCurve(curves["secp256k1"], x, y)) {
+			return fail("invalid public key: not on secp256k1 curve")
+		}
+		slot := new(value)
+		*slot = zero(resT.(*types.Pointer).Elem())
+		return Tuple{slot, Iface{}}, true
+	}
+	reg("github.com/btcsuite/btcd/btcec/v2.ParsePubKey", parse)
+	reg("github.com/decred/dcrd/dcrec/secp256k1/v4.ParsePubKey", parse)
 }
